@@ -422,6 +422,37 @@ func hashCmd(args []string) error {
 			}
 		}
 	}
+	// (a') change sensitivity when the list names a file more than once (impl only: the files are rewritten)
+	if *shard == 0 {
+		for k := 0; k < 12; k++ {
+			p := filepath.Join(root, fmt.Sprintf("dup%d", k))
+			q := filepath.Join(root, fmt.Sprintf("other%d", k))
+			os.WriteFile(p, []byte("one"), 0o644)
+			os.WriteFile(q, []byte("q"), 0o644)
+			lists := [][]string{{p, p}, {p, p, q}, {q, p, p}, {p, q, p, q}, {p, p, p}}
+			l := lists[k%len(lists)]
+			d1 := ask(&w, bin, gmps[k%4], l, 10*time.Second)
+			os.WriteFile(p, []byte("two"), 0o644)
+			d2 := ask(&w, bin, gmps[k%4], l, 10*time.Second)
+			st.BySource["duplicate-then-edit(impl only)"]++
+			if strings.HasPrefix(d1, "D ") && d1 == d2 {
+				fail("C04", fmt.Sprintf("dup-list-%d", k), fmt.Sprintf("a list naming %s %d times: editing that file left the digest unchanged (%s)", filepath.Base(p), strings.Count(strings.Join(l, " "), p), d1))
+			}
+			r2 := filepath.Join(root, fmt.Sprintf("renamed%d", k))
+			os.Rename(p, r2)
+			l2 := make([]string, len(l))
+			for i, x := range l {
+				l2[i] = x
+				if x == p {
+					l2[i] = r2
+				}
+			}
+			d3 := ask(&w, bin, gmps[k%4], l2, 10*time.Second)
+			if strings.HasPrefix(d2, "D ") && d2 == d3 {
+				fail("C04", fmt.Sprintf("dup-list-%d", k), "renaming a file named twice in the list left the digest unchanged")
+			}
+		}
+	}
 	// (b) every position of an unreadable entry in lists of size <= 6
 	if *shard == 0 {
 		for n := 1; n <= 6; n++ {
